@@ -411,7 +411,7 @@ pub fn run(ctx: &mut Ctx) -> Result<(), Violation> {
     ctx.stage("readme-identities", true, (st, None))?;
 
     let kmax = ctx.tier.pick(3usize, 4usize);
-    let cases = ctx.tier.pick(40_000, 1_500_000);
+    let cases = ctx.tier.cases(40_000, 1_500_000);
     let r = par_random(ctx, "random-monotone-bodies", cases, 260, |tape, st| {
         let mut t = Tape::new(tape);
         // k = other variables; thorough uses k = 4 for a fraction (65536 candidates each)
@@ -451,7 +451,7 @@ pub fn run(ctx: &mut Ctx) -> Result<(), Violation> {
 
     // scoping on general formulas (fixed point anywhere, shadowing made likely by a small name pool;
     // formulas without shadowing are counted as discarded)
-    let cases = ctx.tier.pick(200_000, 6_000_000);
+    let cases = ctx.tier.cases(200_000, 6_000_000);
     let r = par_random(ctx, "scoping", cases, 260, |tape, st| {
         let mut t = Tape::new(tape);
         let mut cfg = Cfg::standard(3, 2 + t.choose(4));
@@ -476,7 +476,7 @@ pub fn run(ctx: &mut Ctx) -> Result<(), Violation> {
     ctx.stage("scoping-alpha-renaming", false, r)?;
 
     // BDDEnv::fp against the index model
-    let cases = ctx.tier.pick(20_000, 3_000_000);
+    let cases = ctx.tier.cases(20_000, 3_000_000);
     let r = par_random(ctx, "fp-api", cases, 20, |tape, st| {
         let mut t = Tape::new(tape);
         let mut map = [0u8; 16];
